@@ -91,6 +91,7 @@ NTR:
 
 from dawgie.pl.jobinfo import State
 
+import calendar
 import datetime
 import dawgie
 import dawgie.context
@@ -144,10 +145,26 @@ def _delay(when: dawgie.EVENT) -> datetime.timedelta:
             pass
 
         if when.moment.dom is not None:
-            nm = now.month + 1
+            year = now.year
+            month = now.month
+
+            if (
+                when.moment.dom < now.day
+                or calendar.monthrange(year, month)[1] < when.moment.dom
+            ):
+                # this month's day has passed or does not exist so move to the
+                # next month that has such a day
+                month += 1
+
+                if month == 13:
+                    year += 1
+                    month = 1
+                if calendar.monthrange(year, month)[1] < when.moment.dom:
+                    month += 1
+
             then = datetime.datetime(
-                year=now.year + (1 if nm == 13 else 0),
-                month=1 if nm == 13 else nm,
+                year=year,
+                month=month,
                 day=when.moment.dom,
                 hour=when.moment.time.hour,
                 minute=when.moment.time.minute,
